@@ -16,8 +16,12 @@
 #include "vthread.h"
 
 pthread_t v_self = 1;
+unsigned long v_tid = 1;           /* kernel thread id of the running thread: what glibc records as owner of a recursive mutex.
+                                      It CHANGES in a forked child (same pthread_t, new TID) */
+void (*v_atfork_prepare)(void), (*v_atfork_parent)(void), (*v_atfork_child)(void);
+int   v_atfork_calls, v_in_prepare;
 int       v_mutex_depth;
-pthread_t v_mutex_owner;
+unsigned long v_mutex_owner;
 int       v_mutex_initialised, v_mutex_recursive, v_once_done;
 int       v_lock_calls, v_unlock_calls;
 int       v_child_mode;
@@ -39,6 +43,14 @@ int pthread_once(pthread_once_t *c, void (*fn)(void))
     return 0;
 }
 
+/* at most one registration is modelled (the library registers once, from its pthread_once routine) */
+int pthread_atfork(void (*prepare)(void), void (*parent)(void), void (*child)(void))
+{
+    v_atfork_calls++;
+    v_atfork_prepare = prepare; v_atfork_parent = parent; v_atfork_child = child;
+    return 0;
+}
+
 int pthread_mutexattr_init(pthread_mutexattr_t *a) { (void)a; return 0; }
 int pthread_mutexattr_settype(pthread_mutexattr_t *a, int t) { (void)a; v_mutex_recursive = (t == PTHREAD_MUTEX_RECURSIVE); return 0; }
 int pthread_mutex_init(pthread_mutex_t *m, const pthread_mutexattr_t *a)
@@ -54,19 +66,23 @@ int pthread_mutex_lock(pthread_mutex_t *m)
     V_BOUNDARY();                      /* stopped just before taking the lock */
     v_lock_calls++;
     V_ASSERT(v_mutex_initialised, "C09: mutex used before initialisation");
-    if (v_mutex_owner != 0 && v_mutex_owner != v_self) {
+    if (v_mutex_owner != 0 && v_mutex_owner != v_tid) {
+#ifdef VERIF_CBMC
+        /* a prepare handler that has to wait for the lock only delays the fork: the same schedule with a later fork point */
+        if (v_in_prepare) __CPROVER_assume(0);
+#endif
         /* owned by another thread: in a live process it will be released (progress assumption on the others);
          * in a forked child the owner does not exist => the caller blocks forever */
         V_ASSERT(!v_child_mode, "C10: forked child blocks forever on a lock inherited from a thread that does not exist in the child");
         v_mutex_owner = 0; v_mutex_depth = 0;     /* the other thread leaves its critical section */
     }
-    if (v_mutex_owner == v_self) {
+    if (v_mutex_owner == v_tid) {
         V_ASSERT(v_mutex_recursive, "C09: relock of a non-recursive mutex by its owner (self-deadlock)");
         v_mutex_depth++;
         return 0;
     }
     v_interference();                 /* others may have run since we last held the lock */
-    v_mutex_owner = v_self; v_mutex_depth = 1;
+    v_mutex_owner = v_tid; v_mutex_depth = 1;
     V_BOUNDARY();                      /* stopped inside the critical section */
     return 0;
 }
@@ -76,7 +92,8 @@ int pthread_mutex_unlock(pthread_mutex_t *m)
     (void)m;
     V_BOUNDARY();                      /* stopped inside the critical section, about to leave it */
     v_unlock_calls++;
-    V_ASSERT(v_mutex_owner == v_self && v_mutex_depth > 0, "C09: unlock of a mutex the caller does not hold");
-    if (v_mutex_owner == v_self && v_mutex_depth > 0) { v_mutex_depth--; if (v_mutex_depth == 0) v_mutex_owner = 0; }
+    if (v_child_mode && v_mutex_owner != v_tid) return EPERM;      /* glibc: recursive/errorcheck mutex owned by another TID (e.g. the pre-fork TID) */
+    V_ASSERT(v_mutex_owner == v_tid && v_mutex_depth > 0, "C09: unlock of a mutex the caller does not hold");
+    if (v_mutex_owner == v_tid && v_mutex_depth > 0) { v_mutex_depth--; if (v_mutex_depth == 0) v_mutex_owner = 0; }
     return 0;
 }
